@@ -1,12 +1,12 @@
 """C04 - register dependences are honoured: RAW, WAW and WAR give program-order values."""
 from . import syscheck, sysdiff as S
 
-PROFILES = [('hazard', 3), ('alu', 2), ('ssa', 1), ('branch', 1), ('ldonly', 1)]
+PROFILES = [('hazard', 3), ('alu', 2), ('ssa', 2), ('ssald', 1.5), ('branch', 1), ('ldonly', 1)]
 
 
 def run(ctx):
     return syscheck.run(
-        ctx, 'C04', 'C04', PROFILES, S.PIPELINED, n_quick=50, n_thorough=2000, repeats=2,
+        ctx, 'C04', 'C04', PROFILES, S.PIPELINED, n_quick=120, n_thorough=2000, repeats=2,
         assumptions=['each case is run twice per cell (schedule dependence through Go map iteration shows as a differing repeat)'],
         text_rule='register-pressure programs over 2-4 registers (chains, fans, WAW and WAR pairs, loads as slow producers overtaken by fast writers) '
                   'and general ALU programs; all pipelined variants x parallelism 1..4 inside the calibrated domains; non-trivial = the program has a register reused '
